@@ -278,3 +278,40 @@ Example replace_pieces_example :
   pieces [97; 97] [97; 97; 97; 98; 97; 97] = [[]; [97; 98]; []] /\
   op_replace [97; 97; 97; 98; 97; 97] [97; 97] [120] = [120; 97; 98; 120].
 Proof. split; reflexivity. Qed.
+
+(* replace with the empty pattern: the replacement before every character and at the end *)
+Lemma replace_empty_chars r : forall cs fuel, forallb wf_char cs = true -> (length (concat cs) <= fuel)%nat ->
+  replace_empty fuel r (concat cs) = r ++ concat (map (fun c => c ++ r) cs).
+Proof.
+  induction cs as [|c cs IH]; intros fuel F L.
+  - simpl. rewrite app_nil_r. destruct fuel; reflexivity.
+  - simpl in F. apply andb_true_iff in F as [Fc Fcs].
+    pose proof (wf_char_nonempty c Fc) as Cne. pose proof (wf_char_len c Fc) as Cl.
+    destruct c as [|b ct]; [congruence|]. cbn [hd length] in Cl.
+    destruct fuel as [|fuel]; [simpl in L; lia|].
+    cbn [concat map]. change ((b :: ct) ++ concat cs) with (b :: (ct ++ concat cs)).
+    cbn [replace_empty]. change (b :: ct ++ concat cs) with ((b :: ct) ++ concat cs).
+    assert (E : lead_len b = len (b :: ct)) by (unfold len; cbn [length]; lia).
+    rewrite E, take_app_len, drop_app_len. rewrite IH; [|exact Fcs|].
+    + rewrite <- !app_assoc. reflexivity.
+    + simpl in L. rewrite app_length in L. lia.
+Qed.
+
+Lemma replace_empty_lemma s r : valid_utf8 s -> exists cs, forallb wf_char cs = true /\ concat cs = s /\
+  op_replace s [] r = r ++ concat (map (fun c => c ++ r) cs) /\ valid_utf8 s /\ op_replace s [] [] = s.
+Proof.
+  intros [cs [F E]]. exists cs. split; [exact F|]. split; [exact E|]. split; [|split].
+  - unfold op_replace. rewrite <- E. apply replace_empty_chars; [exact F | lia].
+  - exists cs. auto.
+  - unfold op_replace. subst s. rewrite replace_empty_chars; [|exact F | lia].
+    simpl. f_equal. clear. induction cs as [|c cs IH]; simpl; [reflexivity|]. rewrite app_nil_r, IH. reflexivity.
+Qed.
+
+Lemma replace_empty_valid s r : valid_utf8 s -> valid_utf8 r -> valid_utf8 (op_replace s [] r).
+Proof.
+  intros Vs Vr. destruct (replace_empty_lemma s r Vs) as [cs [F [_ [E _]]]]. rewrite E.
+  apply valid_app; [exact Vr|]. clear E. induction cs as [|c cs IH]; simpl; [apply valid_nil|].
+  simpl in F. apply andb_true_iff in F as [Fc Fcs].
+  apply valid_app; [apply valid_app; [|exact Vr] | apply IH; exact Fcs].
+  exists [c]. simpl. rewrite Fc, app_nil_r. auto.
+Qed.
